@@ -28,6 +28,16 @@ BULK = ("addnode", "copyto", "move", "addtree", "add", "set_data")
 PROBE_SHAPES = [((((), ()),), ((),)), (((), ((), ())), ((), ())), ((((), (), ()),), ()), (((((),),),),)]
 
 # witnesses of defects found by this check (each fails on the code without fixes/D8x.diff)
+_W_UNIV = ["s:n0", "s:n1", "s:n2", "s:new", "s:f1", "s:f2", "s:f3", "e:9"]
+_W_SETUP = [["new", False, None], ["add", 0, 0, 0, None, None, None], ["add", 0, 1, 1, None, None, None], ["add", 0, 0, 2, None, None, None],
+            ["new", False, None], ["add", 1, 0, 0, None, None, None], ["add", 1, 4, 3, None, None, None]]
+RAW_CORPUS: list = [
+    dict(id="D80", kind="probe", univ=_W_UNIV, setup=_W_SETUP, typed=False, only=["Node.add(data, before='x')"]),
+    dict(id="D80b", kind="probe", univ=_W_UNIV, setup=_W_SETUP, typed=False, only=["Node.add(node, before=1.5)"]),
+    dict(id="D81", kind="probe", univ=_W_UNIV, setup=_W_SETUP, typed=False, only=["Node.add(data, data_id=[1])"]),
+    dict(id="D81b", kind="probe", univ=_W_UNIV, setup=_W_SETUP, typed=False, only=["Node.set_data(data, data_id=[1])"]),
+    dict(id="D81c", kind="probe", univ=_W_UNIV, setup=_W_SETUP, typed=False, only=["Tree.add(data) with calc_data_id returning a list"]),
+]
 CORPUS: list = []
 
 
@@ -57,7 +67,10 @@ class Prop:
             "on bigger trees (clones, typed): ~30 mutating and ~50 read-only operations (save to StringIO and to a file, load, to_dict_list, "
             "to_list_iter, from_dict, visit x 3 orders, find_all / find_first by match / data / data_id / node_id, filtered / copy with "
             "predicates, format, print, iterators, to_dot, to_dotfile, to_mermaid_flowchart, to_rdf_graph, diff x ordered x reduce), each run "
-            "clean with counting callbacks and then once per invocation k with an exception raised at exactly that invocation; (e) seeded "
+            "clean with counting callbacks and then once per invocation k with an exception raised at exactly that invocation; plus ~75 calls "
+            "with arguments outside the documented types (before = str / float / object / list, unhashable data_id - explicit or returned by "
+            "calc_data_id -, unhashable data, duplicate / non-numeric node_id, malformed from_dict items, None / str targets, uncomparable sort "
+            "keys, ...): whatever they raise, the snapshot is unchanged; (e) seeded "
             "random histories (half malformed: invalid before, colliding ids, foreign targets, moves into the own branch, raising callbacks). "
             "A case = one history or one (setup, <=40 alternative last ops) group or one probe set; distinct = distinct (universe, ops); "
             "non-trivial = at least one refusal or escaped exception was observed")
@@ -90,6 +103,8 @@ class Prop:
         quick = tier == "quick"
         for c in mut.CORPUS + CORPUS:
             yield dict(kind="hist", univ=c["univ"], ops=c["ops"], corpus=c["id"])
+        for c in RAW_CORPUS:
+            yield dict(kind="probe", univ=c["univ"], setup=c["setup"], typed=c["typed"], only=c["only"], corpus=c["id"], label="corpus " + c["id"])
         # (b) invalid arguments
         groups = []
         if quick:
@@ -161,7 +176,7 @@ class Prop:
                     st = M.two_tree_setup(shape, lname, ty)
                     if st is None:
                         continue
-                    yield dict(kind="probe", univ=st[0], setup=st[1], label=lname + ("/typed" if ty else ""))
+                    yield dict(kind="probe", univ=st[0], setup=st[1], typed=ty, label=lname + ("/typed" if ty else ""))
         # (e) random histories
         nrand = 16 if quick else 500
         for i in range(nrand):
@@ -200,10 +215,13 @@ class Prop:
         elif desc["kind"] == "probe":
             r = M.replay13(dict(univ=desc["univ"], ops=desc["setup"]))
             term, obs = mut.coq_case(r), r.obs
-            pf, pst = M.run_probes(desc["univ"], desc["setup"])
+            only = desc.get("only")
+            pf, pst = ([], dict(probes=0, fault_runs=0, readonly=0)) if only else M.run_probes(desc["univ"], desc["setup"])
+            rf, rst = M.run_raw_invalid(desc["univ"], desc["setup"], desc.get("typed", False), only=only)
+            pf = pf + rf
             stats = dict(kind="probe set", label=desc.get("label", ""), probes=pst["probes"], fault_runs=pst["fault_runs"] // 50 * 50,
-                         readonly=pst["readonly"])
-            nontrivial = pst["fault_runs"] > 0
+                         readonly=pst["readonly"], raw_invalid=rst["raw_invalid"], raw_raised=rst["raw_raised"] // 10 * 10)
+            nontrivial = pst["fault_runs"] > 0 or rst["raw_raised"] > 0
             if r.fails:
                 fail = f"{r.fails[0][1]}: {r.fails[0][2]} [setup]"
             elif pf:
@@ -222,7 +240,7 @@ class Prop:
                 si, name, msg = r.fails[0]
                 fail = f"{name}: {msg} [step {si}: {r.steps[si]['op']}]"
         return Case(desc=desc, coq_input=term, impl_obs=obs, oracle_fail=fail, nontrivial=nontrivial,
-                    key=H.digest([desc["univ"], desc.get("setup"), desc.get("alts"), desc.get("ops"), desc["kind"]]), stats=stats)
+                    key=H.digest([desc["univ"], desc.get("setup"), desc.get("alts"), desc.get("ops"), desc["kind"], desc.get("only")]), stats=stats)
 
 
 PROP = Prop()
